@@ -200,3 +200,200 @@ func isColorScheme(t types.Type) bool {
 }
 
 const tokenGEQ = token.GEQ
+
+// ---------------------------------------------------------------------------------------------
+// Bottom-tested ("rotated") counting loops. go/ssa lowers `for i := range n` to
+//
+//	pre:   if cond(init) goto hdr else done
+//	hdr:   x = phi [pre: init, latch: next]   ... body ...
+//	latch: next = x + step; if cond(next) goto hdr else done
+//
+// so the block that carries the loop variable has no exit test of its own. rotatedLoop recognises the
+// shape; Normer.LoopWhile gives the loop's continue condition as a condition on the value of the loop
+// variable in the current iteration (cond(x)), which holds at the top of hdr in every iteration - the
+// same statement a top-tested loop makes with its header test.
+type rotated struct {
+	pre, latch, done *ssa.BasicBlock
+	phi              *ssa.Phi
+	init, next       ssa.Value
+}
+
+func rotatedLoop(hdr *ssa.BasicBlock) (*rotated, bool) {
+	if hdr == nil || len(hdr.Preds) != 2 {
+		return nil, false
+	}
+	var pre, latch *ssa.BasicBlock
+	var pi, li int
+	for i, p := range hdr.Preds {
+		if hdr.Dominates(p) {
+			latch, li = p, i
+		} else {
+			pre, pi = p, i
+		}
+	}
+	if pre == nil || latch == nil || len(pre.Succs) != 2 || len(latch.Succs) != 2 {
+		return nil, false
+	}
+	if pre.Succs[0] != hdr || latch.Succs[0] != hdr || pre.Succs[1] != latch.Succs[1] {
+		return nil, false
+	}
+	// the header itself must not leave the loop (unless the whole loop is this one block)
+	for _, s := range hdr.Succs {
+		if latch == hdr {
+			break
+		}
+		if !hdr.Dominates(s) || s == pre.Succs[1] {
+			return nil, false
+		}
+	}
+	for _, ins := range hdr.Instrs {
+		p, ok := ins.(*ssa.Phi)
+		if !ok {
+			break
+		}
+		if !isIntType(p.Type()) {
+			continue
+		}
+		if bo, ok := p.Edges[li].(*ssa.BinOp); ok && bo.Op == token.ADD && bo.X == ssa.Value(p) {
+			if _, isC := bo.Y.(*ssa.Const); isC {
+				return &rotated{pre: pre, latch: latch, done: pre.Succs[1], phi: p, init: p.Edges[pi], next: bo}, true
+			}
+		}
+	}
+	return nil, false
+}
+
+// LoopWhile: for a bottom-tested counting loop the continue condition in terms of the loop variable's
+// current value; nil when hdr is not such a loop or the entry test is not the same condition at the
+// start value.
+func (n *Normer) LoopWhile(hdr *ssa.BasicBlock) *Cond {
+	if n.noRot {
+		return nil
+	}
+	rot, ok := rotatedLoop(hdr)
+	if !ok {
+		return nil
+	}
+	li, ok1 := rot.latch.Instrs[len(rot.latch.Instrs)-1].(*ssa.If)
+	pi, ok2 := rot.pre.Instrs[len(rot.pre.Instrs)-1].(*ssa.If)
+	if !ok1 || !ok2 {
+		return nil
+	}
+	n.noRot = true
+	defer func() { n.noRot = false }()
+	// cond(next) with next := x
+	n.env = append(n.env, map[ssa.Value]Poly{rot.next: n.Norm(rot.phi)})
+	while := n.CondOf(li.Cond)
+	n.env = n.env[:len(n.env)-1]
+	// cond(next) with next := init must be the entry test
+	n.env = append(n.env, map[ssa.Value]Poly{rot.next: n.Norm(rot.init)})
+	atInit := n.CondOf(li.Cond)
+	n.env = n.env[:len(n.env)-1]
+	if eq, _ := CondEquivalent(atInit, n.CondOf(pi.Cond)); !eq {
+		return nil
+	}
+	return while
+}
+
+// loopExitBlock: the block control reaches when the loop of hdr ends normally.
+func loopExitBlock(hdr *ssa.BasicBlock) *ssa.BasicBlock {
+	if rot, ok := rotatedLoop(hdr); ok {
+		return rot.done
+	}
+	if len(hdr.Succs) == 2 {
+		return hdr.Succs[1]
+	}
+	return nil
+}
+
+// LoopCond: the continue condition of the loop headed by hdr in terms of the current value of its
+// variable(s) - the header test of a top-tested loop, LoopWhile of a bottom-tested one.
+func (n *Normer) LoopCond(hdr *ssa.BasicBlock) *Cond {
+	if w := n.LoopWhile(hdr); w != nil {
+		return w
+	}
+	if len(hdr.Succs) == 2 {
+		return n.EdgeCond(hdr, hdr.Succs[0])
+	}
+	return cTrue
+}
+
+// inLoopBody: blk belongs to the body of the loop headed by hdr (for a bottom-tested loop the header
+// block itself is the first block of the body).
+func inLoopBody(hdr, blk *ssa.BasicBlock) bool {
+	if _, ok := rotatedLoop(hdr); ok {
+		return hdr.Dominates(blk)
+	}
+	return len(hdr.Succs) > 0 && hdr.Succs[0].Dominates(blk)
+}
+
+// loopBodyStart: the block from which conditions inside the body are taken (the header itself for a
+// bottom-tested loop).
+func loopBodyStart(hdr *ssa.BasicBlock) *ssa.BasicBlock {
+	if _, ok := rotatedLoop(hdr); ok {
+		return hdr
+	}
+	return hdr.Succs[0]
+}
+
+// rotatedExitAlias: after a bottom-tested loop go/ssa merges "loop not entered" and "loop finished"
+// in a phi of the exit block: [pre: init of P, latch: next value of P] for a header phi P. That is
+// the value P has when the loop ends - what the header phi itself denotes after a top-tested loop.
+func rotatedExitAlias(phi *ssa.Phi) *ssa.Phi {
+	blk := phi.Block()
+	for _, p := range blk.Preds {
+		if len(p.Succs) != 2 || p.Succs[1] != blk {
+			continue
+		}
+		rot, ok := rotatedLoop(p.Succs[0])
+		if !ok || rot.done != blk {
+			continue
+		}
+		hdr := p.Succs[0]
+		pi, li, hpi, hli := -1, -1, -1, -1
+		for i, q := range blk.Preds {
+			if q == rot.pre {
+				pi = i
+			}
+			if q == rot.latch {
+				li = i
+			}
+		}
+		for i, q := range hdr.Preds {
+			if q == rot.pre {
+				hpi = i
+			}
+			if q == rot.latch {
+				hli = i
+			}
+		}
+		if pi < 0 || li < 0 || hpi < 0 || hli < 0 || len(blk.Preds) != 2 {
+			continue
+		}
+		for _, ins := range hdr.Instrs {
+			hp, ok := ins.(*ssa.Phi)
+			if !ok {
+				break
+			}
+			if sameValue(hp.Edges[hpi], phi.Edges[pi]) && hp.Edges[hli] == phi.Edges[li] {
+				return hp
+			}
+		}
+	}
+	return nil
+}
+
+func sameValue(a, b ssa.Value) bool {
+	if a == b {
+		return true
+	}
+	ca, ok1 := a.(*ssa.Const)
+	cb, ok2 := b.(*ssa.Const)
+	if ok1 && ok2 && types.Identical(ca.Type(), cb.Type()) {
+		if ca.Value == nil || cb.Value == nil {
+			return ca.Value == nil && cb.Value == nil
+		}
+		return ca.Value.ExactString() == cb.Value.ExactString()
+	}
+	return false
+}
